@@ -562,7 +562,7 @@ func init() {
 		Rule:   "one evaluation = one simulated dial (real kmipclient negotiation against a scripted server with one of eight behaviours (conformant, discovery unsupported, lists unoffered versions, ascending, duplicates, empty, zigzag, seeded permutation), or against the real kmipserver) followed by one request on the original and one on a cloned client; the grid floor sweeps all 31 client sets x 32 server sets x 8 behaviours (+3 permutations) + real server + enforced versions completely; distinct = distinct event-log hashes among runs with at least one chunked read, stall or preemption",
 		Components: map[string][]string{
 			"real": {"kmipclient (DialContext, negotiateVersion, Clone, BatchOpt)", "kmipserver (Server, BatchExecutor.handleDiscover, SetSupportedProtocolVersions) in the real-server cells", "ttlv.Stream and codec"},
-			"stub": {"network (simnet)", "scripted server with six discovery behaviours", "clock (synctest)", "TLS (absent)"},
+			"stub": {"network (simnet)", "scripted server with ten discovery behaviours", "clock (synctest)", "TLS (absent)"},
 		},
 		Assumptions: []string{"cells where the real server's set lacks 1.1 assert membership only (the discovery request is framed as 1.1; whether its rejection counts as 'discovery unsupported' is not settled by the statement)", "rewriter is semantics-preserving"},
 	})
